@@ -3,13 +3,13 @@ import SFV.Lemmas.Remap
 namespace SFV.Remap
 open SFV
 
-def fileScheme : Str := ['f', 'i', 'l', 'e']
+@[reducible] def fileScheme : Str := SFV.Gen.remapScheme
 
 theorem containsColonSlash_fileUrl (s : Str) : containsColonSlash (fileUrl ++ s) = true := by
-  simp [fileUrl, containsColonSlash]
+  simp [fileUrl, SFV.Gen.remapFilePrefix, containsColonSlash]
 
 theorem scheme_fileUrl (s : Str) : scheme (fileUrl ++ s) = fileScheme := by
-  simp [scheme, fileUrl, fileScheme, List.dropWhile, List.filter, List.takeWhile, alphaFirst, schemeChar, lowerAscii]
+  simp [scheme, fileUrl, fileScheme, SFV.Gen.remapFilePrefix, SFV.Gen.remapScheme, List.dropWhile, List.filter, List.takeWhile, alphaFirst, schemeChar, lowerAscii]
 
 theorem remapPath_fileUrl (cwd oc nc comps : List Str) (hoc : oc ≠ []) (hnc : nc ≠ []) (hc : comps ≠ [])
     (ho : ∀ w ∈ oc, Reg w) (hn : ∀ w ∈ nc, Reg w) (hcs : ∀ w ∈ comps, Reg w) :
@@ -21,7 +21,8 @@ theorem remapPath_fileUrl (cwd oc nc comps : List Str) (hoc : oc ≠ []) (hnc : 
     · exact hcs w h
   have hcolon : ':' ∉ absStr (oc ++ comps) := mem_absStr (by decide) (fun w hw => (hall w hw).2.2.2.2.2)
   simp only [remapPath, containsColonSlash_false hcolon, Bool.false_eq_true, if_false] at hplain
-  have hdrop : (fileUrl ++ absStr (oc ++ comps)).drop 7 = absStr (oc ++ comps) := by simp [fileUrl]
+  have hdrop : (fileUrl ++ absStr (oc ++ comps)).drop SFV.Gen.remapDrop = absStr (oc ++ comps) := by
+    simp [fileUrl, SFV.Gen.remapFilePrefix, SFV.Gen.remapDrop]
   simp only [remapPath, containsColonSlash_fileUrl, if_true, scheme_fileUrl, fileScheme, hdrop]
   cases hr : relpath cwd (unquote (absStr (oc ++ comps))) (absStr oc) with
   | none => simp [hr] at hplain
